@@ -256,6 +256,9 @@ VF_NOINLINE static void finale() {
 
 extern "C" void vf_main() {
   setup();
+#ifdef VF_ONLY_SETUP
+  return;
+#endif
   dispenso::TimedTask& task = g_ts.t;
   const uint32_t act = g_act;
 
